@@ -26,6 +26,8 @@ import (
 	"sync/atomic"
 	"time"
 
+	"github.com/bluenviron/gortsplib/v5/pkg/base"
+
 	"verif/lib/rig"
 	"verif/lib/vlib"
 )
@@ -212,9 +214,11 @@ func render(s step, subst *strings.Replacer, cseq int) []byte {
 	return nil
 }
 
-// closeBound is how long after its last byte a silent hostile connection may stay open:
-// idle / read timeout of the child (1 s) + one check period + slack.
-const closeBound = childIdleTimeout + 200*time.Millisecond + 5*time.Second
+// closeBound is how long after its last byte a silent hostile connection may stay open: idle /
+// read timeout of the child (2 s) + the library's fixed 5 s wait of a tunnel GET channel for its
+// POST channel + 13 s slack (the child runs under the race detector next to 40 hostile
+// connections; a connection that is never closed is also caught by the quiescent census).
+const closeBound = childIdleTimeout + 5*time.Second + 13*time.Second
 
 func runConversation(ch *child, cv conversation) (out outcome) {
 	out.Statuses = map[string]int{}
@@ -427,6 +431,36 @@ func (cc *canaryClient) once(ch *child, i int) {
 		} else {
 			run.Count("well-behaved-client-single-failures", 1)
 		}
+	}
+	hs := ch.cfg.HandlerSet
+	if !(rig.Implements(hs, base.Describe) && rig.Implements(hs, base.Setup) && rig.Implements(hs, base.Play)) {
+		// this server cannot be played from: the well-behaved peer does what the handler set allows
+		// (OPTIONS, DESCRIBE when implemented) and expects the documented answers
+		var tcfg *tls.Config
+		if ch.cfg.TLS {
+			tcfg = &tls.Config{InsecureSkipVerify: true}
+		}
+		p, err := rig.Dial(ch.addr(), tcfg, "")
+		if err != nil {
+			failed("well-behaved-client/not-served", fmt.Sprintf("a well-behaved peer could not connect twice in a row while hostile connections were open: %v", err))
+			return
+		}
+		defer p.Close()
+		res, err := p.Do(p.Request(base.Options, ch.base()+"/stream", nil, nil), 5*time.Second)
+		if err != nil || res.StatusCode != base.StatusOK {
+			failed("well-behaved-client/not-served", fmt.Sprintf("OPTIONS of a well-behaved peer was not answered 200 twice in a row while hostile connections were open: %v %v", err, res))
+			return
+		}
+		if rig.Implements(hs, base.Describe) {
+			res, err = p.Do(p.Request(base.Describe, ch.base()+"/stream", nil, nil), 5*time.Second)
+			if err != nil || res.StatusCode != base.StatusOK {
+				failed("well-behaved-client/not-served", fmt.Sprintf("DESCRIBE of a well-behaved peer was not answered 200 twice in a row while hostile connections were open: %v %v", err, res))
+				return
+			}
+		}
+		cc.prevFailed.Store(false)
+		cc.iterations.Add(1)
+		return
 	}
 	if err := pc.Start(); err != nil {
 		failed("well-behaved-client/not-served", fmt.Sprintf("a well-behaved client could not start playing twice in a row while hostile connections were open: %v", err))
@@ -742,12 +776,15 @@ func main() {
 		return
 	}
 	per := run.Pick(320, 12000)
+	if v := os.Getenv("VERIF_C11_PER"); v != "" { // development aid: smaller thorough runs
+		fmt.Sscan(v, &per)
+	}
 	for i := range cfgs {
 		cfgs[i].Seed = run.Seed*100 + int64(i)
 		runConfig(cfgs[i], per, nil)
 	}
 	run.ReportRaces()
-	run.Assume("'answers or closes within its timeouts': a hostile connection must be closed by the server within idle/read timeout (1 s) + check period + 5 s slack after its last byte (canary-guarded)")
+	run.Assume("'answers or closes within its timeouts': a hostile connection must be closed by the server within idle/read timeout (2 s) + the fixed 5 s tunnel pairing wait + 13 s slack after its last byte (canary-guarded)")
 	run.Assume("cleanup is judged at quiescent points: all hostile connections of a batch closed, the well-behaved client held back; goroutines, callbacks, UDP registrations, stream reader slots and sockets of the server process must equal the baseline within 12 s")
 	run.Finish(evals.Load(), "hostile conversations = valid conversations (play / record over TCP, UDP, multicast; secure setup; HTTP and WebSocket tunnel handshakes; garbage) with 0..3 mutations out of 26 grammar-aware and byte-level mutators, sent on up to 40 simultaneous connections to a server in a child process, per server configuration, preceded by a deterministic boundary family (track ids, interleaved pairs) and a deterministic multi-connection family (one session driven from two connections that leave in either order); distinct_nontrivial = distinct (configuration, seed, mutation list, status histogram) conversations completed")
 }
